@@ -86,8 +86,12 @@ def plan(S, prop, mode, tier, avoid):
             op.update({"m": m, "n": wpick(r, [(None, 0.5), (1, 1), (r.randrange(2, 60), 4)]),
                        "gseed": r.randrange(1 << 30), "cumulative": chance(r, 0.3),
                        "func": chance(r, 0.35), "via_xrange": chance(r, 0.4),
-                       "dens": pick(r, ["flat", "gauss", "power", "rough", "steep"]),
+                       "dens": pick(r, ["flat", "gauss", "power", "rough", "steep", "fartail"]),
                        "x0": round(r.uniform(-100, 100), 3), "w": float("%.3g" % (10 ** r.uniform(-3, 3)))})
+            if op["dens"] == "fartail" and op["cumulative"]:
+                # a caller-supplied cumulative table with runs of equal values describes a density that is zero
+                # there: outside the quantifier (positive densities).  Far tails only through the density itself
+                op["dens"] = "gauss"
             if prop == "C15":
                 op["px"] = present.draw(r)
                 op["pp"] = present.draw(r)
@@ -95,7 +99,7 @@ def plan(S, prop, mode, tier, avoid):
             d = r.randrange(1, 6)
             op.update({"d": d, "n": wpick(r, [(None, 0.5), (1, 1), (r.randrange(2, 40), 4)]),
                        "cseed": r.randrange(1 << 30), "api": pick(r, ["class", "func", "func_nomean"]),
-                       "scale": float("%.3g" % (10 ** r.uniform(-3, 3)))})
+                       "scale": float("%.3g" % (10 ** (r.uniform(-3, 3) if chance(r, 0.6) else r.uniform(-14, 6))))})
             if prop == "C15":
                 op["pc"] = present.draw(r)
                 op["pm"] = present.draw(r)
@@ -114,8 +118,8 @@ def describe(script):
 
 # =========================================================================== execute
 
-def _mk_rng(op, targets=None):
-    return SimRNG(op["seed"], op["flavour"], op["edge"], targets)
+def _mk_rng(op, targets=None, closed=False):
+    return SimRNG(op["seed"], op["flavour"], op["edge"], targets, closed=closed)
 
 
 def _real_rng(op):
@@ -387,6 +391,10 @@ def _density(op):
         f = lambda tt: (tt + 0.05) ** 2.5                   # noqa: E731
     elif kind == "steep":
         f = lambda tt: np.exp(-8.0 * tt) + 1e-4             # noqa: E731
+    elif kind == "fartail":
+        # positive everywhere, but the tails are so far out that the normalised cumulative table has
+        # runs of exactly equal values (0-plateau at the start, 1.0-plateau at the end)
+        f = lambda tt: np.exp(-0.5 * ((tt - 0.45) / 0.03) ** 2)         # noqa: E731
     else:
         rough = g.uniform(0.05, 1.0, 64)
         f = lambda tt: np.interp(tt, np.linspace(0, 1, 64), rough)     # noqa: E731
@@ -414,7 +422,7 @@ def do_sampler(run, op):
         cum = np.cumsum(0.5 * (p[1:] + p[:-1]) * np.diff(x))
         table = p
         xv, pc = x[1:], cum / cum[-1]
-    rng = _mk_rng(op, targets=pc)
+    rng = _mk_rng(op, targets=pc, closed=True)
     feats = {"call": "sampler", "func": op["func"], "cumulative": op["cumulative"]}
     st = "sampler|%s|func=%s|cum=%s|edge=%s" % (op["flavour"], op["func"], op["cumulative"], op["edge"] > 0)
     run.states.add(st)
@@ -434,7 +442,7 @@ def do_sampler(run, op):
                 p = pofx(x)
                 cum = np.cumsum(0.5 * (p[1:] + p[:-1]) * np.diff(x))
                 xv, pc = x[1:], cum / cum[-1]
-                rng = _mk_rng(op, targets=pc)
+                rng = _mk_rng(op, targets=pc, closed=True)
                 gen = erandom.Generator(fn, xrange=[x[0], x[-1]], nx=x.size, rng=rng, cumulative=op["cumulative"])
             else:
                 gen = erandom.Generator(fn, x=x, rng=rng, cumulative=op["cumulative"])
@@ -479,28 +487,61 @@ def do_sampler(run, op):
     if g.shape != (nn,) or u.shape != (nn,):
         run.fail("rng.sampler.count", feats, "sample(%r) returned shape %r (drew %r deviates)" % (n, g.shape, u.shape))
         return
-    ref = np.interp(u, pc, xv)
+    # reference: linear interpolation of the grid abscissae against the cumulative table.  Where the table
+    # has a run of exactly equal values (far tails) and u equals that value, every abscissa of the run is
+    # an acceptable answer ("grid points are returned where u equals their cumulative value").
     width = x[-1] - x[0]
-    slopes = np.diff(xv) / np.diff(pc)
-    j = np.clip(np.searchsorted(pc, u) - 1, 0, slopes.size - 1)
-    loc = np.maximum(slopes[j], slopes[np.clip(j + 1, 0, slopes.size - 1)])
+    jl = np.searchsorted(pc, u, side="left")
+    jr = np.searchsorted(pc, u, side="right")
+    onrun = jr > jl                               # u equals pc[jl..jr-1]
+    lo = np.empty(nn)
+    hi = np.empty(nn)
+    loc = np.zeros(nn)
+    for t in range(nn):
+        if onrun[t]:
+            lo[t], hi[t] = xv[jl[t]], xv[jr[t] - 1]
+            for jj in (jl[t] - 1, jr[t] - 1):
+                if 0 <= jj < pc.size - 1 and pc[jj + 1] > pc[jj]:
+                    loc[t] = max(loc[t], (xv[jj + 1] - xv[jj]) / (pc[jj + 1] - pc[jj]))
+        elif jl[t] == 0 or jl[t] >= pc.size:
+            lo[t] = hi[t] = np.nan                # below the first / above the last tabulated value
+        else:
+            a, b = jl[t] - 1, jl[t]
+            sl = (xv[b] - xv[a]) / (pc[b] - pc[a])
+            lo[t] = hi[t] = xv[a] + (u[t] - pc[a]) * sl
+            loc[t] = sl
     tol = 1e-12 * width + 64 * np.finfo("f8").eps * loc + 1e-12 * abs(op["x0"])
-    inside = u >= pc[0]
-    err = np.abs(g - ref)
+    inside = (u >= pc[0]) & (u <= pc[-1])
+    # a table that STARTS with a run of equal values has no interval to interpolate in for u equal to that value
+    # (same situation as the single-entry table of a 2-point grid): left unconstrained
+    degenerate = onrun & (jl == 0) & (jr - jl > 1)
+    if degenerate.any():
+        run.probe("deviate_on_a_leading_run_unconstrained")
+        inside = inside & ~degenerate
+    with np.errstate(invalid="ignore"):
+        err = np.where(g < lo, lo - g, np.where(g > hi, g - hi, 0.0))
+        err = np.where(np.isfinite(g), err, np.inf)
+    if np.any(onrun & (jr - jl > 1)):
+        run.probe("deviate_on_a_run_of_equal_cumulative_values")
+    if np.any(u == 1.0):
+        run.probe("deviate_exactly_one")
     if inside.any():
-        run.margin("rng.sampler.value", float(np.max((err / tol)[inside])))
-    w = np.nonzero(inside & (err > tol))[0]
+        run.margin("rng.sampler.value", float(np.max((err / tol)[inside & np.isfinite(err)], initial=0.0)))
+    w = np.nonzero(inside & ~(err <= tol))[0]
     if w.size:
         i = int(w[0])
-        run.fail("rng.sampler.value", feats,
-                 "deviate u=%r maps to %r, the interpolation of the grid against the trapezoid CDF gives %r (grid of %d points on [%r,%r])"
-                 % (u[i], g[i], ref[i], x.size, x[0], x[-1]))
+        run.fail("rng.sampler.value", dict(feats, u="one" if u[i] == 1.0 else ("run" if onrun[i] and jr[i] - jl[i] > 1 else "any")),
+                 "deviate u=%r maps to %r, the interpolation of the grid against the trapezoid CDF gives %s (grid of %d points on [%r,%r])"
+                 % (u[i], g[i], ("%r" % lo[i]) if lo[i] == hi[i] else "a value in [%r, %r]" % (lo[i], hi[i]), x.size, x[0], x[-1]))
         return
     if np.any(inside & ((g < x[0] - tol) | (g > x[-1] + tol))):
         run.fail("rng.sampler.range", feats, "a sample for u >= first cumulative value lies outside the grid")
         return
     o = np.argsort(u, kind="stable")
-    if np.any(np.diff(g[o]) < -2 * tol[o][1:]):
+    o = o[inside[o]]
+    same_u = np.diff(u[o]) == 0
+    # non-decreasing in u (equal deviates on a run of equal table values may legally land anywhere on the run)
+    if np.any((np.diff(g[o]) < -2 * tol[o][1:]) & ~same_u):
         run.fail("rng.sampler.monotone", feats, "the map u -> x is not non-decreasing")
         return
     # reproducibility
